@@ -3,7 +3,7 @@ import ast
 
 from .astutil import unparse, dotted
 from .bitcells import (Unsupported, Param, View, Bits, CU32, ModVal, Maybe, TableVal, Opaque, FuncValue, TOP, PCell, INF,
-                       Record, RecordType, ClassValue, Obj, BoundMethod, TableRef)
+                       Record, RecordType, ClassValue, Obj, BoundMethod, TableRef, LetterTerms, PartialValue)
 from .bitexpr import CONSTS, STR_METHODS, is_pow2, norm_const
 
 MAX_DEPTH = 12
@@ -48,6 +48,18 @@ class CallMixin:
             if len(node.args) != 1 or node.keywords:
                 raise Unsupported('c_uint32 call form {}'.format(unparse(node)))
             return CU32(self.ev(node.args[0], st))
+        if fn in ('partial', 'functools.partial') and not (isinstance(f, ast.Name) and f.id in st.env) \
+                and self.imported_from(fn.split('.')[0], 'functools'):
+            args, kwargs = self.eval_args(node, st)
+            if st.dead:
+                return None
+            if len(args) != 1 or not isinstance(args[0], (FuncValue, PartialValue)):
+                raise Unsupported('partial() of something that is not a function of the module, or with positional arguments: {}'.format(unparse(node)))
+            if isinstance(args[0], PartialValue):
+                merged = dict(args[0].kwargs)
+                merged.update(kwargs)
+                return PartialValue(args[0].func, merged)
+            return PartialValue(args[0], kwargs)
         if fn in ('reduce', 'functools.reduce') and not (isinstance(f, ast.Name) and f.id in st.env) \
                 and self.imported_from(fn.split('.')[0], 'functools'):
             return self.reduce_call(node, st)
@@ -82,6 +94,11 @@ class CallMixin:
         if isinstance(f, ast.Name) and f.id == 'super' and f.id not in st.env and not self.model.bind_count.get('super'):
             return self.super_value(node, st)
         callee = self.ev(f, st)
+        if isinstance(callee, PartialValue):
+            args, kwargs = self.eval_args(node, st)
+            if st.dead:
+                return None
+            return self.call_value(callee, args, kwargs, st, node)
         if isinstance(callee, (ClassValue, BoundMethod, Obj)):
             args, kwargs = self.eval_args(node, st)
             if st.dead:
@@ -166,6 +183,15 @@ class CallMixin:
                 return abs(args[0])
             if name == 'bool' and len(args) == 1 and self.py_truth(args[0]) is not None:
                 return self.py_truth(args[0])
+        if name in ('set', 'frozenset', 'sorted', 'list', 'tuple') and len(args) == 1 and not kwargs and self.spelling_of(args[0]) is not None:
+            base, distinct = self.spelling_of(args[0])
+            return Opaque(('letterseq', base, distinct or name in ('set', 'frozenset')))
+        if name == 'sum' and len(args) == 1 and not kwargs and isinstance(args[0], LetterTerms):
+            return self.letter_value(args[0], 'sum', node)
+        if name in ('all', 'any') and len(args) == 1 and not kwargs and isinstance(args[0], list) \
+                and all(self.py_truth(x) is not None for x in args[0]):
+            vals = [self.py_truth(x) for x in args[0]]
+            return all(vals) if name == 'all' else any(vals)
         if name == 'sum' and 1 <= len(args) <= 2 and not kwargs and isinstance(args[0], list):
             acc = args[1] if len(args) == 2 else 0
             for x in args[0]:
@@ -220,10 +246,22 @@ class CallMixin:
                 return list(reversed(args[0]))
         raise Unsupported('call of {} ({})'.format(name, unparse(node)))
 
+    def letter_value(self, lt, how, node):
+        """sum / or over the letters of a spelling: the operand is the integer this denotes; the letter -> value map is kept
+        for the comparison with the ISA's letter form"""
+        if not all(isinstance(v, int) and not isinstance(v, bool) and v >= 0 for v in lt.mapping.values()):
+            raise Unsupported('letters of a spelling mapped to something that is not a constant: {}'.format(unparse(node)))
+        self.letter_forms[lt.pname] = {'map': dict(lt.mapping), 'distinct': lt.distinct, 'how': how}
+        return Param(lt.pname)
+
     def call_value(self, callee, args, kwargs, st, node):
         """apply a callable value of the analysed module"""
         if isinstance(callee, FuncValue):
             return self.run_function(callee, args, kwargs, st)
+        if isinstance(callee, PartialValue):
+            merged = dict(callee.kwargs)
+            merged.update(kwargs)
+            return self.run_function(callee.func, args, merged, st)
         if isinstance(callee, (ClassValue, BoundMethod, Obj)):
             return self.call_object(callee, args, kwargs, st, node)
         raise Unsupported('call of {} ({})'.format(callee, unparse(node)))
@@ -291,6 +329,10 @@ class CallMixin:
         args, kwargs = self.eval_args(node, st)
         if st.dead:
             return None
+        if not kwargs and 2 <= len(args) <= 3 and isinstance(args[1], LetterTerms) and isinstance(args[0], Opaque) \
+                and isinstance(args[0].desc, tuple) and args[0].desc[0] == 'operator' and args[0].desc[1] in (ast.BitOr, ast.Add) \
+                and (len(args) == 2 or args[2] == 0):
+            return self.letter_value(args[1], 'or' if args[0].desc[1] is ast.BitOr else 'sum', node)
         if kwargs or not 2 <= len(args) <= 3 or not isinstance(args[1], list):
             raise Unsupported('reduce call form {}'.format(unparse(node)))
         seq = list(args[1])
@@ -321,6 +363,20 @@ class CallMixin:
         if st.dead:
             return None
         if isinstance(base, str):
+            if attr == 'format' and all(isinstance(a, CONSTS) for a in list(args) + list(kwargs.values())):
+                try:
+                    return base.format(*args, **kwargs)
+                except Exception:
+                    return Opaque('str.format')
+            if attr == 'join' and len(args) == 1 and isinstance(args[0], list) and all(isinstance(a, str) for a in args[0]):
+                return base.join(args[0])
+            if attr in ('index', 'find', 'count') and len(args) == 1 and isinstance(args[0], str) and not kwargs:
+                try:
+                    return getattr(base, attr)(args[0])
+                except ValueError:
+                    self.raises.append({'node': node, 'fn': self.chain()})
+                    st.dead = True
+                    return None
             if attr == 'format' or attr == 'join':
                 return Opaque('str.' + attr)
             if attr in STR_METHODS and not kwargs and all(isinstance(a, (str, int)) for a in args):
